@@ -54,7 +54,184 @@ struct RunResult {
     case: Option<Value>,
 }
 
+static IN_CHILD: AtomicBool = AtomicBool::new(false);
+static CURRENT_PROP: Mutex<String> = Mutex::new(String::new());
+
+pub fn set_in_child() {
+    IN_CHILD.store(true, Ordering::SeqCst);
+}
+pub fn set_current_prop(p: &str) {
+    *CURRENT_PROP.lock().unwrap() = p.to_string();
+}
+fn current_prop() -> String {
+    CURRENT_PROP.lock().unwrap().clone()
+}
+
+/// How a child process died, as a stable class fragment.
+pub fn death_kind(status: &std::process::ExitStatus, stderr: &str) -> String {
+    use std::os::unix::process::ExitStatusExt;
+    let what = if stderr.contains("has overflowed its stack") {
+        "stack-overflow".to_string()
+    } else if stderr.contains("refused absurd allocation") || stderr.contains("memory allocation of") {
+        "absurd-allocation-abort".to_string()
+    } else if stderr.contains("panic in a function that cannot unwind") || stderr.contains("panicked") {
+        "abort-after-panic".to_string()
+    } else {
+        "killed".to_string()
+    };
+    match status.signal() {
+        Some(sig) => format!("{what}:signal-{sig}"),
+        None => format!("{what}:exit-{}", status.code().unwrap_or(-1)),
+    }
+}
+
+fn tail(s: &str, n: usize) -> String {
+    let key: Vec<&str> = s.lines().filter(|l| l.contains("panicked") || l.contains("overflowed its stack") || l.contains("memory allocation of") || l.contains("refused absurd")).collect();
+    if !key.is_empty() {
+        return key[key.len().saturating_sub(n)..].join(" | ");
+    }
+    let lines: Vec<&str> = s.lines().filter(|l| !l.trim().is_empty()).collect();
+    lines[lines.len().saturating_sub(n)..].join(" | ")
+}
+
+/// Runs one case in a child process (`pmtsim exec-case`); a dead child becomes a violation.
+fn execute_case_in_child(scen: &dyn Scenario, case: &Value, trace: bool) -> (Ctx, Result<(), Violation>, Option<String>) {
+    let mut ctx = Ctx::default();
+    let dir = verif_root().join("replays").join("tmp");
+    let _ = std::fs::create_dir_all(&dir);
+    static SERIAL: AtomicU64 = AtomicU64::new(0);
+    let path = dir.join(format!("case-{}-{}.json", std::process::id(), SERIAL.fetch_add(1, Ordering::SeqCst)));
+    if let Err(e) = std::fs::write(&path, case.to_string()) {
+        return (ctx, Ok(()), Some(format!("cannot write {}: {e}", path.display())));
+    }
+    let exe = match std::env::current_exe() {
+        Ok(e) => e,
+        Err(e) => return (ctx, Ok(()), Some(e.to_string())),
+    };
+    let mut cmd = std::process::Command::new(exe);
+    cmd.arg("exec-case").arg(current_prop()).arg(scen.name()).arg(&path).env("RUST_BACKTRACE", "0");
+    if trace {
+        cmd.arg("trace");
+    }
+    let out = run_with_timeout(cmd, 300);
+    let _ = std::fs::remove_file(&path);
+    let (status, stdout, stderr) = match out {
+        Ok(o) => o,
+        Err(e) => return (ctx, Err(Violation::new("crash:hang", format!("child did not finish: {e}"))), None),
+    };
+    if let Some(line) = stdout.lines().find(|l| l.starts_with("RESULT ")) {
+        if let Ok(v) = serde_json::from_str::<Value>(&line[7..]) {
+            if let Some(t) = v.get("trace").and_then(Value::as_array) {
+                ctx.trace = Some(t.iter().filter_map(|x| x.as_str().map(str::to_string)).collect());
+            }
+            return match v["o"].as_str() {
+                Some("ok") => (ctx, Ok(()), None),
+                Some("vio") => (ctx, Err(Violation::new(v["class"].as_str().unwrap_or(""), v["detail"].as_str().unwrap_or(""))), None),
+                _ => (ctx, Ok(()), Some(v["detail"].as_str().unwrap_or("harness error in child").to_string())),
+            };
+        }
+    }
+    let kind = death_kind(&status, &stderr);
+    (ctx, Err(Violation::new(format!("crash:{kind}"), format!("the process died while executing the case ({kind}); stderr: {}", tail(&stderr, 3)))), None)
+}
+
+fn run_with_timeout(mut cmd: std::process::Command, secs: u64) -> Result<(std::process::ExitStatus, String, String), String> {
+    use std::io::Read;
+    use std::process::Stdio;
+    let mut child = cmd.stdin(Stdio::null()).stdout(Stdio::piped()).stderr(Stdio::piped()).spawn().map_err(|e| e.to_string())?;
+    let mut so = child.stdout.take().unwrap();
+    let mut se = child.stderr.take().unwrap();
+    let t1 = std::thread::spawn(move || {
+        let mut s = String::new();
+        let _ = so.read_to_string(&mut s);
+        s
+    });
+    let t2 = std::thread::spawn(move || {
+        let mut b = Vec::new();
+        let _ = se.read_to_end(&mut b);
+        String::from_utf8_lossy(&b[b.len().saturating_sub(8000)..]).to_string()
+    });
+    let t0 = Instant::now();
+    loop {
+        match child.try_wait() {
+            Ok(Some(st)) => {
+                return Ok((st, t1.join().unwrap_or_default(), t2.join().unwrap_or_default()));
+            }
+            Ok(None) => {
+                if t0.elapsed().as_secs() > secs {
+                    let _ = child.kill();
+                    let _ = child.wait();
+                    return Err(format!("no result after {secs}s (killed)"));
+                }
+                std::thread::sleep(std::time::Duration::from_millis(2));
+            }
+            Err(e) => return Err(e.to_string()),
+        }
+    }
+}
+
+/// `pmtsim exec-case <prop> <scenario> <file> [trace]`
+pub fn exec_case_main(prop: &str, scen_name: &str, file: &Path, trace: bool, find: &dyn Fn(&str, &str) -> Option<Arc<dyn Scenario>>) -> i32 {
+    set_in_child();
+    set_current_prop(prop);
+    let Some(scen) = find(prop, scen_name) else {
+        println!("RESULT {}", json!({"o": "harness", "detail": "no such scenario"}));
+        return 0;
+    };
+    let case: Value = match std::fs::read_to_string(file).map_err(|e| e.to_string()).and_then(|s| serde_json::from_str(&s).map_err(|e| e.to_string())) {
+        Ok(c) => c,
+        Err(e) => {
+            println!("RESULT {}", json!({"o": "harness", "detail": e}));
+            return 0;
+        }
+    };
+    let (ctx, r, hp) = execute_case(scen.as_ref(), &case, trace);
+    let t = ctx.trace.unwrap_or_default();
+    match (r, hp) {
+        (_, Some(m)) => println!("RESULT {}", json!({"o": "harness", "detail": m})),
+        (Ok(()), None) => println!("RESULT {}", json!({"o": "ok", "trace": t})),
+        (Err(v), None) => println!("RESULT {}", json!({"o": "vio", "class": v.class, "detail": v.detail, "trace": t})),
+    }
+    0
+}
+
+/// `pmtsim worker <prop> <scenario> <tier> <seed> <from> <to>`: runs a chunk of runs in-process,
+/// one `B <idx>` line before and one `E <idx> <json>` line after each.
+pub fn worker_main(prop: &str, scen_name: &str, tier: Tier, seed: u64, from: u64, to: u64, find: &dyn Fn(&str, &str) -> Option<Arc<dyn Scenario>>) -> i32 {
+    use std::io::Write;
+    set_in_child();
+    set_current_prop(prop);
+    let Some(scen) = find(prop, scen_name) else {
+        return 2;
+    };
+    let stdout = std::io::stdout();
+    for idx in from..to {
+        {
+            let mut o = stdout.lock();
+            let _ = writeln!(o, "B {idx}");
+            let _ = o.flush();
+        }
+        let rs = run_seed(seed, prop, scen.name(), idx);
+        let mut rng = Rng::new(rs);
+        let case = scen.generate(&mut rng, tier, idx);
+        let (ctx, r, hp) = execute_case(scen.as_ref(), &case, false);
+        let (o, class, detail) = match (&r, &hp) {
+            (_, Some(m)) => ("harness", String::new(), m.clone()),
+            (Ok(()), None) => ("ok", String::new(), String::new()),
+            (Err(v), None) => ("vio", v.class.clone(), v.detail.clone()),
+        };
+        let line = json!({"o": o, "class": class, "detail": detail, "evals": ctx.evals, "sigs": ctx.sigs, "counters": ctx.counters, "digest": ctx.digest, "notes": ctx.notes});
+        let mut out = stdout.lock();
+        let _ = writeln!(out, "E {idx} {line}");
+        let _ = out.flush();
+    }
+    0
+}
+
 pub fn execute_case(scen: &dyn Scenario, case: &Value, trace: bool) -> (Ctx, Result<(), Violation>, Option<String>) {
+    if scen.isolated() && !IN_CHILD.load(Ordering::SeqCst) {
+        return execute_case_in_child(scen, case, trace);
+    }
     let mut ctx = Ctx::default();
     if trace {
         ctx.trace = Some(Vec::new());
@@ -67,6 +244,134 @@ pub fn execute_case(scen: &dyn Scenario, case: &Value, trace: bool) -> (Ctx, Res
             (ctx, Ok(()), Some(msg))
         }
     }
+}
+
+const ISO_CHUNK: u64 = 500;
+
+#[allow(clippy::too_many_arguments)]
+fn run_isolated_batch(plan: &Plan, scen: &dyn Scenario, o: &CheckOpts, runs: u64, t0: Instant, known: &[KnownFinding], results: &Mutex<Vec<RunResult>>, first_bad: &AtomicU64, stop: &AtomicBool) {
+    use std::io::{BufRead, BufReader, Read};
+    use std::process::{Command, Stdio};
+    let next_chunk = AtomicU64::new(0);
+    let exe = std::env::current_exe().expect("current exe");
+    std::thread::scope(|s| {
+        for _ in 0..o.jobs.max(1) {
+            s.spawn(|| loop {
+                let from0 = next_chunk.fetch_add(ISO_CHUNK, Ordering::SeqCst);
+                if from0 >= runs || from0 > first_bad.load(Ordering::SeqCst) || stop.load(Ordering::SeqCst) {
+                    break;
+                }
+                if t0.elapsed().as_secs_f64() > o.max_s {
+                    stop.store(true, Ordering::SeqCst);
+                    break;
+                }
+                let to = (from0 + ISO_CHUNK).min(runs);
+                let mut from = from0;
+                while from < to {
+                    let mut child = Command::new(&exe)
+                        .arg("worker")
+                        .arg(plan.prop)
+                        .arg(scen.name())
+                        .arg(if o.tier == Tier::Quick { "quick" } else { "thorough" })
+                        .arg(o.seed.to_string())
+                        .arg(from.to_string())
+                        .arg(to.to_string())
+                        .env("RUST_BACKTRACE", "0")
+                        .stdin(Stdio::null())
+                        .stdout(Stdio::piped())
+                        .stderr(Stdio::piped())
+                        .spawn()
+                        .expect("spawn worker");
+                    let so = child.stdout.take().unwrap();
+                    let mut se = child.stderr.take().unwrap();
+                    let et = std::thread::spawn(move || {
+                        let mut b = Vec::new();
+                        let _ = se.read_to_end(&mut b);
+                        String::from_utf8_lossy(&b[b.len().saturating_sub(8000)..]).to_string()
+                    });
+                    let (tx, rx) = std::sync::mpsc::channel::<String>();
+                    let rt = std::thread::spawn(move || {
+                        for l in BufReader::new(so).lines().map_while(Result::ok) {
+                            if tx.send(l).is_err() {
+                                break;
+                            }
+                        }
+                    });
+                    let mut in_flight: Option<u64> = None;
+                    let mut done_to = from;
+                    let mut hung = false;
+                    loop {
+                        match rx.recv_timeout(std::time::Duration::from_secs(300)) {
+                            Ok(l) => {
+                                if let Some(r) = l.strip_prefix("B ") {
+                                    in_flight = r.trim().parse().ok();
+                                } else if let Some(r) = l.strip_prefix("E ") {
+                                    let mut it = r.splitn(2, ' ');
+                                    let idx: u64 = it.next().and_then(|x| x.parse().ok()).unwrap_or(u64::MAX);
+                                    let v: Value = it.next().and_then(|j| serde_json::from_str(j).ok()).unwrap_or(Value::Null);
+                                    let mut ctx = Ctx::default();
+                                    ctx.evals = v["evals"].as_u64().unwrap_or(1);
+                                    ctx.digest = v["digest"].as_u64().unwrap_or(0);
+                                    ctx.sigs = v["sigs"].as_array().map(|a| a.iter().filter_map(Value::as_u64).collect()).unwrap_or_default();
+                                    if let Some(c) = v["counters"].as_object() {
+                                        for (k, n) in c {
+                                            ctx.counters.insert(k.clone(), n.as_u64().unwrap_or(0));
+                                        }
+                                    }
+                                    ctx.notes = v["notes"].as_array().map(|a| a.iter().filter_map(|x| x.as_str().map(str::to_string)).collect()).unwrap_or_default();
+                                    let outcome = match v["o"].as_str() {
+                                        Some("ok") => Outcome::Ok,
+                                        Some("vio") => Outcome::Violation(Violation::new(v["class"].as_str().unwrap_or(""), v["detail"].as_str().unwrap_or(""))),
+                                        _ => Outcome::HarnessPanic(v["detail"].as_str().unwrap_or("unparseable worker line").to_string()),
+                                    };
+                                    push_iso(plan, scen, o, known, results, first_bad, idx, ctx, outcome);
+                                    in_flight = None;
+                                    done_to = idx + 1;
+                                }
+                            }
+                            Err(std::sync::mpsc::RecvTimeoutError::Timeout) => {
+                                hung = true;
+                                let _ = child.kill();
+                                break;
+                            }
+                            Err(std::sync::mpsc::RecvTimeoutError::Disconnected) => break,
+                        }
+                    }
+                    let status = child.wait().expect("wait worker");
+                    let _ = rt.join();
+                    let stderr = et.join().unwrap_or_default();
+                    if done_to >= to && status.success() {
+                        break;
+                    }
+                    // the worker died (or hung) while a case was in flight
+                    let idx = in_flight.unwrap_or(done_to);
+                    let kind = if hung { "hang:no-progress-300s".to_string() } else { death_kind(&status, &stderr) };
+                    let v = Violation::new(format!("crash:{kind}"), format!("the process died while executing the case ({kind}); stderr: {}", tail(&stderr, 3)));
+                    push_iso(plan, scen, o, known, results, first_bad, idx, Ctx::default(), Outcome::Violation(v));
+                    from = idx + 1;
+                }
+            });
+        }
+    });
+}
+
+#[allow(clippy::too_many_arguments)]
+fn push_iso(plan: &Plan, scen: &dyn Scenario, o: &CheckOpts, known: &[KnownFinding], results: &Mutex<Vec<RunResult>>, first_bad: &AtomicU64, idx: u64, ctx: Ctx, outcome: Outcome) {
+    let bad = match &outcome {
+        Outcome::Ok => false,
+        Outcome::HarnessPanic(_) => true,
+        Outcome::Violation(v) => !known.iter().any(|k| k.status == "open" && k.property == plan.prop && v.class.starts_with(&k.class_prefix)),
+    };
+    if bad {
+        first_bad.fetch_min(idx, Ordering::SeqCst);
+    }
+    let case = if !matches!(outcome, Outcome::Ok) || idx < 3 {
+        let rs = run_seed(o.seed, plan.prop, scen.name(), idx);
+        Some(scen.generate(&mut Rng::new(rs), o.tier, idx))
+    } else {
+        None
+    };
+    results.lock().unwrap().push(RunResult { idx, ctx, outcome, case });
 }
 
 #[derive(Default)]
@@ -117,6 +422,7 @@ pub struct CheckOpts {
 /// Returns the process exit code.
 pub fn run_check(plan: Plan, o: &CheckOpts) -> i32 {
     let t0 = Instant::now();
+    set_current_prop(plan.prop);
     let known = match load_known() {
         Ok(k) => k,
         Err(e) => {
@@ -146,6 +452,9 @@ pub fn run_check(plan: Plan, o: &CheckOpts) -> i32 {
         let first_bad = AtomicU64::new(u64::MAX);
         let results: Mutex<Vec<RunResult>> = Mutex::new(Vec::new());
         let tb = Instant::now();
+        if scen.isolated() {
+            run_isolated_batch(&plan, scen.as_ref(), o, runs, t0, &known, &results, &first_bad, &stop);
+        } else {
         std::thread::scope(|s| {
             for _ in 0..o.jobs.max(1) {
                 s.spawn(|| {
@@ -196,6 +505,7 @@ pub fn run_check(plan: Plan, o: &CheckOpts) -> i32 {
                 });
             }
         });
+        }
         if stop.load(Ordering::SeqCst) {
             truncated = true;
         }
@@ -350,7 +660,8 @@ pub fn minimise(scen: &dyn Scenario, case: &Value, class: &str) -> (Value, Viola
     let mut cur_v = r.err().unwrap_or_else(|| Violation::new(class, "did not reproduce during minimisation"));
     let mut tried = 0u64;
     let mut progress = true;
-    while progress && tried < 3000 && t0.elapsed().as_secs_f64() < 90.0 {
+    let max_tried: u64 = if scen.isolated() { 600 } else { 3000 };
+    while progress && tried < max_tried && t0.elapsed().as_secs_f64() < 90.0 {
         progress = false;
         for cand in scen.shrink(&cur) {
             if cand == cur {
@@ -369,7 +680,7 @@ pub fn minimise(scen: &dyn Scenario, case: &Value, class: &str) -> (Value, Viola
                     break;
                 }
             }
-            if tried >= 3000 || t0.elapsed().as_secs_f64() > 90.0 {
+            if tried >= max_tried || t0.elapsed().as_secs_f64() > 90.0 {
                 break;
             }
         }
@@ -435,6 +746,7 @@ pub fn replay(path: &Path, find: &dyn Fn(&str, &str) -> Option<Arc<dyn Scenario>
         }
     };
     let prop = doc["property"].as_str().unwrap_or("");
+    set_current_prop(prop);
     let scen_name = doc["scenario"].as_str().unwrap_or("");
     let Some(scen) = find(prop, scen_name) else {
         eprintln!("harness error: no scenario {scen_name} for property {prop}");
